@@ -119,6 +119,17 @@ class IterV(Val):
         return f"Iter({show(self.vec) if self.vec is not None else 'inf'})"
 
 
+class MutSlot(Val):
+    """element of a vector handed out by iter_mut after the iterator went through an adaptor (zip, enumerate, skip,
+    rev, ..): remembers the place and position it writes back to"""
+
+    def __init__(self, place, idx, val):
+        self.place, self.idx, self.val = place, idx, val
+
+    def __repr__(self):
+        return f"MutSlot({self.place.desc}[{self.idx}])"
+
+
 class Trace:
     def __init__(self):
         self.items = []
@@ -152,6 +163,8 @@ class Interp:
         self.hooks_canon = _CanonHooks(self.hooks)
         self.bounds = Bounds()
         self.fn_stack = []
+        self.body_stack = []
+        self.tail_ids = set()
         self.chal_count = {}
         self.draw_log = []  # (rng, atom, loop_ctx, where)
         self.loop_ctx = []  # stack of loop descriptors
@@ -192,6 +205,7 @@ class Interp:
         self.calls_seen.append(path)
         if path in self.watch_calls:
             self.trace.add("callmark", {"path": path, "args": [self.deref(a) if not isinstance(a, Ref) else None for a in args], "where": FX.short((node or {}).get("sp")), "fn": self.fn_stack[-2] if len(self.fn_stack) > 1 else ""})
+        self.body_stack.append(FX.strip(fn["body"]))
         try:
             try:
                 v = self.ev(fn["body"], env)
@@ -200,6 +214,7 @@ class Interp:
         finally:
             self.depth -= 1
             self.fn_stack.pop()
+            self.body_stack.pop()
         return v
 
     # -- patterns ----------------------------------------------------------------
@@ -266,6 +281,8 @@ class Interp:
         while True:
             if isinstance(v, Ref):
                 v = v.get()
+            elif isinstance(v, MutSlot):
+                v = v.val
             elif isinstance(v, Ite) and self.assumed:
                 pick = self.pick_assumed(v.cond)
                 if pick is None:
@@ -344,11 +361,16 @@ class Interp:
                 b = self.deref(base.get())
                 self.index_write(base, b, idx, v, e)
 
-            return Ref(g, s, f"{base.desc}[{getattr(idx, 'e', idx)}]", root_id=base.root_id)
+            r_ = Ref(g, s, f"{base.desc}[{getattr(idx, 'e', idx)}]", root_id=base.root_id)
+            if isinstance(idx, Struct) and idx.path == "Range":
+                r_.slice_of = (base, (idx.fields.get("start") or IntV(0)).e)
+            return r_
         if k == "Unary" and e.get("op") == "*":
             inner = self.ev_raw(e["e"], env)
             if isinstance(inner, Ref):
                 return inner
+            if isinstance(inner, MutSlot):
+                raise Unanalysable("write through an element of a mutable iterator outside a for loop", FX.short(e.get("sp")))
             # deref of a by-value binding holding a plain value (e.g. &T param evaluated by value)
             return self.place(e["e"], env)
         if k == "AddrOf":
@@ -499,7 +521,7 @@ class Interp:
         return self.ev_raw(e["e"], env)
 
     def ev_Block(self, e, env):
-        for s in e["stmts"]:
+        for idx, s in enumerate(e["stmts"]):
             sk = s["k"]
             if sk == "Let":
                 if s["init"] is None:
@@ -512,10 +534,32 @@ class Interp:
                     v = self.deref(v)
                 self.bind(s["pat"], v, env)
             elif sk in ("Expr", "Semi"):
+                x = FX.strip(s["e"])
+                if self.body_stack and self.body_stack[-1] is e and x["k"] == "If" and x.get("f") is None and x["c"]["k"] != "LetExpr" and self.block_always_returns(x["t"]):
+                    # `if c { effects; return X }` at function-body level: the rest of the body is the else branch
+                    snap = self.snapshot(env)
+                    try:
+                        self.ev_raw(s["e"], env)
+                    except Unanalysable as u:
+                        if u.msg != "effects inside an early-return branch":
+                            raise
+                        self.restore(env, snap)
+                        rest = {"k": "Block", "stmts": e["stmts"][idx + 1:], "expr": e.get("expr"), "sp": e.get("sp"), "ty": e.get("ty")}
+                        fake = dict(x)
+                        fake["f"] = rest
+                        fake["_cont"] = True
+                        self.body_stack.append(rest)
+                        try:
+                            return self.ev_If(fake, env)
+                        finally:
+                            self.body_stack.pop()
+                    continue
                 self.ev_raw(s["e"], env)
             elif sk == "Item":
                 continue
         if e.get("expr") is not None:
+            if self.body_stack and self.body_stack[-1] is e:
+                self.tail_ids.add(id(FX.strip(e["expr"])))
             return self.ev_raw(e["expr"], env)
         return UNIT
 
@@ -876,6 +920,10 @@ class Interp:
         sf = self.snapshot(env)
         self.trace = old
         if ret_t is not None or ret_f is not None:
+            if e.get("_cont") and ret_t is not None and ret_f is None:
+                # the else branch is the rest of the function body: its value is the return value
+                ret_f = vf
+                self.merge(env, c, st, sf)
             if ret_t is not None and ret_f is not None:
                 if tt.items or tf.items:
                     self.trace.add("alt", c, tt.items, tf.items, FX.short(e.get("sp")))
@@ -1237,6 +1285,8 @@ class Interp:
             elem = seg.f(sp.Integer(0))
             if itv.mut_place is not None:
                 elem = self.elem_ref(itv.mut_place, off)
+            else:
+                elem = self.bind_slots(elem, e)
             self.bind(pat, elem, env)
             self.ev_raw(body, env)
             return
@@ -1244,6 +1294,10 @@ class Interp:
         old_bounds = self.bounds
         self.bounds = self.bounds.with_ub(j, seg.n)
         carried = self.carried_vars(body, env)
+        counter = getattr(itv, "counter", None)
+        if counter is not None:
+            carried.pop(counter[0], None)
+            env[counter[0]] = IntV(sp.expand(counter[1] + counter[2] * (off + j)))
         placeholders = {}
         inits = {}
         for lid, name in carried.items():
@@ -1282,11 +1336,18 @@ class Interp:
             elem = seg.f(j)
             if itv.mut_place is not None:
                 elem = self.elem_ref_sym(itv, lc, seg, j, off)
+            else:
+                elem = self.bind_slots(elem, e)
             self.bind(pat, elem, env)
             try:
                 self.ev_raw(body, env)
             except BreakSignal:
                 raise Unanalysable("break inside a summarised loop", where)
+            if counter is not None:
+                cv = self.deref(env[counter[0]])
+                if not (isinstance(cv, IntV) and eq(cv.e, counter[1] + counter[2] * (off + j + 1))):
+                    raise Unanalysable(f"loop counter is not stepped exactly once per iteration (value after the body: {cv!r})", where)
+                env[counter[0]] = IntV(sp.expand(counter[1] + counter[2] * (off + seg.n)))
         finally:
             self.loop_ctx.pop()
             self.bounds = old_bounds
@@ -1306,28 +1367,8 @@ class Interp:
             new = self.deref(env[lid])
             init = inits[lid]
             if isinstance(init, Sc):
-                ne = sp.expand(new.e)
-                if eq(ne, ph):
-                    subst[ph] = init.e
-                    finals[lid] = init
-                    continue
-                ratio = sp.simplify(ne / ph)
-                if not ratio.has(ph) and not ratio.has(j):
-                    # power accumulator: value in iteration j is init*ratio^j
-                    subst[ph] = init.e * ratio**j
-                    finals[lid] = Sc(init.e * ratio**seg.n)
-                    continue
-                if not ratio.has(ph):
-                    # product accumulator with index-dependent factor
-                    subst[ph] = init.e * mk_prod(j, ratio, j) if False else init.e * sfun("PRODTO")(j, ratio.xreplace({j: isym("_k")}))
-                    finals[lid] = Sc(init.e * mk_prod(seg.n, ratio, j))
-                    continue
-                delta = sp.expand(ne - ph)
-                if not delta.has(ph):
-                    subst[ph] = init.e + sfun("SUMTO")(j, delta.xreplace({j: isym("_k")}))
-                    finals[lid] = Sc(init.e + mk_sum(seg.n, delta, j))
-                    continue
-                raise Unanalysable(f"loop-carried scalar update {carried[lid]} := {ne} matches no schema", where)
+                subst[ph], finals[lid] = self.scalar_acc_schema(init, ph, sp.expand(new.e), j, seg.n, where, carried[lid])
+                continue
             else:
                 if isinstance(new, Ite) and isinstance(new.cond, Cond) and new.cond.op == "lt":
                     # running maximum:  if x > acc { acc = x }
@@ -1351,6 +1392,19 @@ class Interp:
                     subst[ph] = init.e
                     finals[lid] = init
                     continue
+                if getattr(ne.func, "__name__", "") == "MAX2" and len(ne.args) == 2 and any(eq(a_, ph) for a_ in ne.args):
+                    # running maximum:  acc = acc.max(x)  /  acc = max(acc, x)
+                    tmpl = [a_ for a_ in ne.args if not eq(a_, ph)]
+                    if len(tmpl) == 1 and not tmpl[0].has(ph):
+                        t_ = tmpl[0]
+                        mx = sfun("MAX")(seg.n, t_.xreplace({j: isym("_k")}))
+                        self.max_facts.append({"template": t_, "isym": j, "n": seg.n, "max": mx, "init": init.e, "where": where})
+                        for fa, fb in list(self.bounds.facts):
+                            if eq(fa, t_) and not sp.sympify(fb).has(j) and eq(init.e, 0):
+                                self.bounds.add_le(mx, fb)
+                        subst[ph] = sfun("MAXTO")(j, t_.xreplace({j: isym("_k")}))
+                        finals[lid] = IntV(mx) if eq(init.e, 0) else IntV(sfun("MAX2")(init.e, mx))
+                        continue
                 raise Unanalysable(f"loop-carried integer update {carried[lid]} := {ne} matches no schema", where)
         for lid, v in finals.items():
             env[lid] = v
@@ -1412,6 +1466,53 @@ class Interp:
 
         return Ref(g, s, f"{itv.mut_place.desc}[*]")
 
+    def scalar_acc_schema(self, init, ph, ne, j, n, where, name):
+        """closed form of a scalar accumulator: `ne` is the new value in terms of the placeholder `ph` (old value) and the
+        loop index j; returns (value at the start of iteration j, value after n iterations)"""
+        if eq(ne, ph):
+            return init.e, init
+        ratio = sp.simplify(ne / ph)
+        if not ratio.has(ph) and not ratio.has(j):
+            # power accumulator: value in iteration j is init*ratio^j
+            return init.e * ratio**j, Sc(init.e * ratio**n)
+        if not ratio.has(ph):
+            # product accumulator with index-dependent factor
+            return init.e * sfun("PRODTO")(j, ratio.xreplace({j: isym("_k")})), Sc(init.e * mk_prod(n, ratio, j))
+        delta = sp.expand(ne - ph)
+        if not delta.has(ph):
+            return init.e + sfun("SUMTO")(j, delta.xreplace({j: isym("_k")})), Sc(init.e + mk_sum(n, delta, j))
+        raise Unanalysable(f"loop-carried scalar update {name} := {ne} matches no schema", where)
+
+    def bind_slots(self, v, node):
+        if isinstance(v, MutSlot):
+            return self.slot_ref(v, node)
+        if isinstance(v, Tup) and any(isinstance(x, (MutSlot, Tup)) for x in v.items):
+            return Tup([self.bind_slots(x, node) for x in v.items])
+        return v
+
+    def slot_ref(self, slot, node):
+        """writable reference for one MutSlot: writes go through index_write on the root vector place (element-wise
+        write schema inside a summarised loop, scatter record in scatter mode)"""
+        place, idx = slot.place, sp.sympify(slot.idx)
+        while getattr(place, "slice_of", None) is not None:
+            place, lo = place.slice_of[0], place.slice_of[1]
+            idx = sp.expand(idx + lo)
+        state = {"v": slot.val}
+
+        def g():
+            if self.scatter is not None:
+                bb = self.deref(place.get())
+                if isinstance(bb, Vec):
+                    self.log_index(bb, IntV(idx), node)
+                return Sc(ssym("OLD:" + place.desc))
+            return state["v"]
+
+        def s(v):
+            state["v"] = v
+            self.index_write(place, self.deref(place.get()), IntV(idx), v, node)
+
+        return Ref(g, s, f"{place.desc}[{idx}]", root_id=place.root_id)
+
     def elem_ref(self, place, idx):
         def g():
             return self.deref(place.get()).index(idx, self.bounds)
@@ -1427,7 +1528,90 @@ class Interp:
             r = hook(self, e, env)
             if r is not NotImplemented:
                 return r
+        if e.get("src") == "While":
+            r = self.counting_while(e, env)
+            if r is not NotImplemented:
+                return r
         raise Unanalysable(f"loop ({e['src']}) without a summary schema", FX.short(e.get("sp")))
+
+    def counting_while(self, e, env):
+        """`while v < N { ..; v += 1; .. }` / `while v > L { ..; v -= 1; .. }` with an integer local v stepped exactly once,
+        unconditionally, per iteration and a loop-invariant bound: the same as a for loop over the trip count with v
+        available as a function of the iteration index (before / after the step statement)."""
+        where = FX.short(e.get("sp"))
+        b = e["body"]
+        x = b.get("expr") if b["k"] == "Block" and not b["stmts"] else None
+        if x is None or x["k"] != "If" or x["c"]["k"] != "Binary" or x.get("f") is None:
+            return NotImplemented
+        fb = x["f"]
+        if not (fb["k"] == "Block" and len(fb["stmts"]) == 1 and fb["stmts"][0]["k"] in ("Expr", "Semi") and fb["stmts"][0]["e"]["k"] == "Break" and fb.get("expr") is None):
+            return NotImplemented
+        c, t = x["c"], x["t"]
+        if t["k"] != "Block":
+            return NotImplemented
+
+        def local_id(n):
+            n = FX.strip(n)
+            return n["res"]["id"] if n["k"] == "Path" and n["res"]["k"] == "Local" else None
+
+        def touches(n, lid):
+            """assignment to / mutable borrow of local lid anywhere in n"""
+            for y in FX.walk(n):
+                if y["k"] in ("Assign", "AssignOp") and local_id(y["l"]) == lid:
+                    return True
+                if y["k"] == "AddrOf" and y.get("mut") and local_id(y["e"]) == lid:
+                    return True
+            return False
+
+        # the stepped counter and its step statement (top level of the body)
+        steps = [(i, s["e"]) for i, s in enumerate(t["stmts"]) if s["k"] in ("Semi", "Expr") and s["e"]["k"] == "AssignOp" and s["e"]["op"] in ("+=", "-=") and local_id(s["e"]["l"]) is not None and s["e"]["r"]["k"] == "Lit" and str(s["e"]["r"].get("v")) == "1"]
+        cand = None
+        for side, other, flip in ((c["l"], c["r"], False), (c["r"], c["l"], True)):
+            lid = local_id(side)
+            if lid is None or lid not in env:
+                continue
+            mine = [(i, s) for i, s in steps if local_id(s["l"]) == lid]
+            if len(mine) != 1:
+                continue
+            rest = {"k": "Block", "stmts": [s for i, s in enumerate(t["stmts"]) if i != mine[0][0]], "expr": t.get("expr")}
+            if touches(rest, lid):
+                continue
+            cand = (lid, other, flip, mine[0][1]["op"])
+            break
+        if cand is None:
+            return NotImplemented
+        lid, other, flip, stepop = cand
+        op = c["op"]
+        if flip:
+            op = {"<": ">", ">": "<", "!=": "!=", "<=": ">=", ">=": "<="}.get(op)
+        # loop-invariant bound: literal, or an integer local not assigned / mutably borrowed in the body
+        ob = FX.strip(other)
+        if not (ob["k"] == "Lit" or (local_id(ob) is not None and local_id(ob) != lid and not touches(t, local_id(ob)))):
+            return NotImplemented
+        if any(y["k"] in ("Break", "Continue") for y in FX.walk(t)):
+            return NotImplemented
+        v0 = self.deref(env[lid])
+        bound = self.ev(other, env)
+        if not isinstance(v0, IntV) or not isinstance(bound, IntV):
+            return NotImplemented
+        if op == "<" and stepop == "+=":
+            step, trips = 1, sp.expand(bound.e - v0.e)
+        elif op == ">" and stepop == "-=":
+            step, trips = -1, sp.expand(v0.e - bound.e)
+        elif op == "!=" and stepop == "+=" and le(v0.e, bound.e, self.bounds):
+            step, trips = 1, sp.expand(bound.e - v0.e)
+        elif op == "!=" and stepop == "-=" and le(bound.e, v0.e, self.bounds):
+            step, trips = -1, sp.expand(v0.e - bound.e)
+        else:
+            return NotImplemented
+        nonempty = self.decide(Cond("lt", sp.Integer(0), trips))
+        if nonempty is False:
+            return UNIT
+        itv = IterV(Vec([Seg(trips, lambda jj: IntV(jj))]))
+        itv.counter = (lid, v0.e, step)
+        self.run_loop({"k": "Wild"}, itv, t, env, e)
+        env[lid] = IntV(sp.expand(v0.e + step * trips))
+        return UNIT
 
     def ev_LetExpr(self, e, env):
         raise Unanalysable("let-expression condition")
@@ -1505,7 +1689,7 @@ def subst_val(v, m):
     if isinstance(v, Vec):
         return Vec([Seg(sp.sympify(s.n).xreplace(m), (lambda jj, s=s: subst_val(s.f(jj), m))) for s in v.segs], v.kind)
     if isinstance(v, Bytes):
-        return Bytes([(k, subst_val(x, m) if isinstance(x, Val) else x) for k, x in v.parts])
+        return Bytes([tuple([part[0]] + [subst_val(x, m) if isinstance(x, Val) else x for x in part[1:]]) for part in v.parts])
     if isinstance(v, Opaque) and v.info:
         info = {}
         for k, x in v.info.items():
